@@ -1,5 +1,5 @@
 (* Pinned statements for C13: a changed statement or a new axiom fails the check. *)
-From SwimV Require Import Model.Stores Proofs.StoresProofs Props.C13.
+From SwimV Require Import Model.Stores Proofs.StoresProofs Proofs.StoresMapProofs Props.C13.
 Open Scope N_scope.
 Check (C13_map_key_injective) : (forall id k id' k', U64 id -> U64 id' -> U64 (len k) -> U64 (len k') -> ser_map_key id k = ser_map_key id' k' -> id = id' /\ k = k').
 Print Assumptions C13_map_key_injective.
@@ -27,3 +27,19 @@ Check (C13_ids_never_collide) : (forall ops name1 name2 id, let r := rocks_run_s
 Print Assumptions C13_ids_never_collide.
 Check (C13_F1_name_not_injective_refuted) : (exists a n a' n', (a, n) <> (a', n') /\ lane_name a n = lane_name a' n').
 Print Assumptions C13_F1_name_not_injective_refuted.
+Check (C13_wf_kept) : (forall ks id k v, WF ks -> U56 id -> WF (bput (ser_map_key id k) v ks) /\ WF (bdel (ser_map_key id k) ks) /\ WF (delete_range ks (ser_map_prefix id) (ser_map_ubound id))).
+Print Assumptions C13_wf_kept.
+Check (C13_scan_lookup_is_point_lookup) : (forall ks id k, wf_map_ks ks -> U56 id -> bget k (view ks id) = bget (ser_map_key id k) ks).
+Print Assumptions C13_scan_lookup_is_point_lookup.
+Check (C13_update_sets_the_key) : (forall ks id k v k', WF ks -> U56 id -> bget k' (view (bput (ser_map_key id k) v ks) id) = if bytes_eqb k' k then Some v else bget k' (view ks id)).
+Print Assumptions C13_update_sets_the_key.
+Check (C13_remove_unsets_the_key) : (forall ks id k k', WF ks -> U56 id -> bget k' (view (bdel (ser_map_key id k) ks) id) = if bytes_eqb k' k then None else bget k' (view ks id)).
+Print Assumptions C13_remove_unsets_the_key.
+Check (C13_clear_unsets_every_key) : (forall ks id k', WF ks -> U56 id -> bget k' (view (delete_range ks (ser_map_prefix id) (ser_map_ubound id)) id) = None).
+Print Assumptions C13_clear_unsets_every_key.
+Check (C13_read_map_lists_the_lane) : (forall ks id k v, WF ks -> U56 id -> In (k, v) (sort_kv (view ks id)) <-> bget (ser_map_key id k) ks = Some v).
+Print Assumptions C13_read_map_lists_the_lane.
+Check (C13_read_map_is_sorted) : (forall l, sorted_keys (sort_kv l)).
+Print Assumptions C13_read_map_is_sorted.
+Check (C13_map_witness) : (let ks := bput (ser_map_key 2 [7]) [9] (bput (ser_map_key 1 [7]) [8] []) in WF ks /\ sort_kv (view ks 1) = [([7], [8])] /\ sort_kv (view ks 2) = [([7], [9])]).
+Print Assumptions C13_map_witness.
